@@ -64,6 +64,9 @@ def _work(job):
                     if pi % 3 == 2:
                         b = [o["b"] for o in (opa, opb) if o["t"] == "put"]
                         opc = {"t": "put", "n": "c", "b": b[pi % len(b)] if b else 5, "cond": 0}
+                    elif pi % 3 == 1 and (opa, opb)[(pi // 3) % 2]["n"]:
+                        # ... every third one by a delete of a name the overlapped pair wrote to
+                        opc = {"t": "del", "n": (opa, opb)[(pi // 3) % 2]["n"], "b": 0, "cond": 0}
                     r = rd.run_schedule(tmpl, opa, opb, plan, shared=job["shared"], opc=opc)
                     ts = sorted([opa["t"], opb["t"]])
                     ts = [{"read": "read"}.get(x, x) for x in ts]
